@@ -42,6 +42,8 @@ def main(run: Run):
     run.trusted_base += ["pyvc VC generator (vf/pyvc/engine.py)", "z3 5.1 / cvc5 1.0", "Lean 4.33 + Mathlib for the arithmetic lemma library",
                          "CPython cross-check of the engine's path summaries (vf/pyvc/crosscheck.py)"]
     discharge_all(run, obs, timeout_ms=30000)
+    from . import memtrees
+    memtrees.run_bounded(run, "history", run.tier, forced=bool(run.undecided) or any(o.status == "undecided" for o in run.obligations))
     for o in obs[:6]:
         run.sample(f"{o.fn}::{o.clause}::{o.label}")
     return run.finish(
